@@ -937,6 +937,7 @@ PyObject* py_majority_filter(PyObject* self, PyObject* args) {
     if (!PyArg_ParseTuple(args, "OLO", &array, &N, &res_a) ||
         !PyArray_Check(array) || !PyArray_Check(res_a) ||
         PyArray_TYPE(array) != NPY_BOOL || PyArray_TYPE(res_a) != NPY_BOOL ||
+        PyArray_NDIM(array) != 2 || !numpy::same_shape(array, res_a) ||
         !PyArray_ISCARRAY(res_a)) {
         PyErr_SetString(PyExc_RuntimeError,TypeErrorMsg);
         return NULL;
